@@ -1017,7 +1017,8 @@ def rule_R8(ed, src, a, b):
                 j = _next_sig(toks, k + 1, bc)
                 k = match_close(toks, j) + 1
                 continue
-            if t.kind == "ident" and t.text != "pub":
+            if (t.kind == "ident" and t.text != "pub") or (t.kind == "punct" and t.text in ("&", "(", "[", "*")) or t.kind == "lifetime":
+                # (a tuple field may start with a type that is not an identifier: `&'t T`, `(A, B)`, `[T; N]`)
                 ed.insert(t.start, "pub ", "R8", "field visibility widened")
             elif t.kind == "ident" and t.text == "pub":
                 j = _next_sig(toks, k + 1, bc)
